@@ -19,7 +19,9 @@ open CCV CCV.Drv CCV.TV CCV.TI
   Further requests: `bcast <s1> <s2>` (`broadcast_shapes`), `slice <shape> <k> el…` (`get_slice_shape`),
   `sidx <shape> <index> <k> el…` (`slice_index`),
   `evalop <op> <k> <type>… <value>…(k values)` (`EvalOps.evalOp`, one node of `SimpleEvaluator::evaluate_node`)
-  → `ok <value>` | `ERR` | `UNCOVERED` (operation outside the covered set); value encoding:
+  → `ok <value>` | `ERR` | `UNCOVERED` (operation outside the covered set: 32 operations are covered, incl.
+  Stack / Concatenate / B2A, GetSlice, Reshape of compound types, tuple / vector constructors and accessors,
+  VectorGet, Zip, Repeat, ApplyPermutation); value encoding:
   `r:<residues>` (scalar / array, `r:_` = empty) | `l:<n>` V… (vector / tuple). -/
 
 def parseOptInt? (s : String) : Option (Option Int) :=
